@@ -28,4 +28,5 @@ def run(idx, rep, tier):
     nesterov.r_mainloop(idx, rep)
     misc2.r_dupcond(idx, rep, [m.name for m in idx.lib_modules()], floor=3)
     unitdir.r_portaldir(idx, rep)
+    nesterov.r_supportsibling(idx, rep)
     unpack.r_unpack(idx, rep, floor=28)
